@@ -555,6 +555,13 @@ fn pq_dict_runs() -> RecordBatch {
     batch(vec![("d8", Arc::new(d8), true), ("d16", Arc::new(d16), true)])
 }
 
+/// Utf8View columns written with the two DELTA byte-array encodings (read back as views because the embedded
+/// Arrow schema is kept); multi-byte characters at value boundaries
+fn pq_view_deltas() -> RecordBatch {
+    let v = vec![Some("\u{e9}t\u{e9}"), Some("\u{e9}t\u{e9} de plus de douze octets"), None, Some("\u{fc}"), Some("\u{e9}ta"), Some("")];
+    batch(vec![("dl", Arc::new(StringViewArray::from(v.clone())), true), ("db", Arc::new(StringViewArray::from(v)), true)])
+}
+
 fn base(c: Compression, v2: bool) -> WriterPropertiesBuilder {
     WriterProperties::builder()
         .set_compression(c)
@@ -627,6 +634,18 @@ fn parquet_entries(out: &mut Vec<Entry>) {
         ),
         ("views-arrowmeta-v1", vec![pq_views()], base(Compression::UNCOMPRESSED, false).set_statistics_enabled(EnabledStatistics::None).build(), false, false),
         ("dictcols-runs-arrowmeta-v1", vec![pq_dict_runs()], base(Compression::UNCOMPRESSED, false).set_dictionary_enabled(true).set_statistics_enabled(EnabledStatistics::None).build(), false, false),
+        (
+            "views-delta-arrowmeta-v2",
+            vec![pq_view_deltas()],
+            base(Compression::UNCOMPRESSED, true)
+                .set_dictionary_enabled(false)
+                .set_column_encoding(cp("dl"), Encoding::DELTA_LENGTH_BYTE_ARRAY)
+                .set_column_encoding(cp("db"), Encoding::DELTA_BYTE_ARRAY)
+                .set_statistics_enabled(EnabledStatistics::None)
+                .build(),
+            false,
+            false,
+        ),
         ("empty-v1", vec![b_empty_rows()], base(Compression::UNCOMPRESSED, false).build(), true, false),
     ];
     for (name, batches, props, skip_meta, page_index) in sets {
